@@ -180,6 +180,9 @@ partial def modFromJson (j : Json) : Except String Mod := do
   let subsJ ← (← j.getObjVal? "subs").getArr?
   let subs ← subsJ.toList.mapM modFromJson
   return .mk name recipes aliases subs
+deriving instance FromJson, ToJson for Decl
+deriving instance FromJson, ToJson for AliasOf
+deriving instance FromJson, ToJson for Entry
 end Just.Listing
 
 namespace Just.Imports
